@@ -332,7 +332,18 @@ def apply_op(idnt, op, log=None):
                 if op.get("samples"):
                     idnt.fit_properties["optimal_fit_num_samples"] = \
                         op["samples"]
-                e, d = idnt.compute_emodulus_mindelta()
+                if op.get("callback_raises") is not None:
+                    # progress callback (called every five steps) that
+                    # aborts the scan, e.g. a GUI's cancel button
+                    calls = [0]
+
+                    def cb(em, ind, n=op["callback_raises"]):
+                        calls[0] += 1
+                        if calls[0] >= n:
+                            raise core.InjectedFault("callback aborts scan")
+                    e, d = idnt.compute_emodulus_mindelta(callback=cb)
+                else:
+                    e, d = idnt.compute_emodulus_mindelta()
                 out["ret"] = [digest_array(e), digest_array(d)]
             elif kind == "getinit":
                 p = idnt.get_initial_fit_parameters(
@@ -944,7 +955,9 @@ class CurveEngineC03:
             elif r < 0.88:
                 op = {"op": "emod"}
                 if rng.random() < 0.9:
-                    op["samples"] = rng.choice([5, 6, 9])
+                    op["samples"] = rng.choice([5, 6, 9, 12])
+                if rng.random() < 0.25:
+                    op["callback_raises"] = rng.choice([1, 2])
                 if swarm["faults"] and rng.random() < 0.3:
                     op["fault"] = gen_fault(rng, ["minimize"], 8)
             elif r < 0.92:
@@ -2139,6 +2152,33 @@ class CurveEngineC09:
                     self.prop, "Q2", "standalone", feats,
                     f"rate_quality returned {val!r}, the standalone rater "
                     f"on a fresh copy gives {exp2!r}", i)
+                break
+            # Q8: the reported rating parameters describe this rating
+            rp = idnt.get_rating_parameters()
+            exp_hash = idnt.fit_properties.get("hash", "none") \
+                if idnt.fit_properties else "none"
+            bad = None
+            if rp["Rating"] != val and not (rp["Rating"] != rp["Rating"]
+                                            and val != val):
+                bad = ("Rating", rp["Rating"], val)
+            elif rp["Regressor"] != reg:
+                bad = ("Regressor", rp["Regressor"], reg)
+            elif rp["Hash"] != exp_hash:
+                bad = ("Hash", rp["Hash"], exp_hash)
+            elif rp["Linear discriminant analysis"] != kw.get("lda"):
+                bad = ("Linear discriminant analysis",
+                       rp["Linear discriminant analysis"], kw.get("lda"))
+            elif (rp["Feature names"] is None) != (names is None) or (
+                    names is not None
+                    and list(rp["Feature names"]) != list(names)):
+                bad = ("Feature names", rp["Feature names"], names)
+            if bad is not None:
+                feats["field"] = bad[0]
+                violation = make_violation(
+                    self.prop, "Q8", f"rating-parameters:{bad[0]}", feats,
+                    f"get_rating_parameters() reports {bad[0]} = "
+                    f"{str(bad[1])[:80]!r} after a rating with "
+                    f"{str(bad[2])[:80]!r}", i)
                 break
             # Q7: a feature selection is a set - the same names in sorted
             # order give the same rating
